@@ -191,6 +191,28 @@ def statistics_oracle(R, base, n):
     return bad
 
 
+def repeated_calls_oracle(R, base, ncalls):
+    """consecutive calls (real generator, real seeding) must not return the same samples: "each call returns the requested
+    number of independent samples"""
+    bad = None
+    for kind in ('mt', 'dc', 'clvd', 'sample'):
+        for n in (1, 3):
+            seen = {}
+            alg = new_alg(base, n) if kind != 'sample' else base.BaseAlgorithm(number_samples=n)
+            for c in range(ncalls):
+                out = np.asarray(base._6sphere_random_mt(alg) if kind == 'mt' else (alg.random_dc() if kind == 'dc' else (
+                    alg.random_clvd() if kind == 'clvd' else alg.random_sample())), dtype=float)
+                R.count(('repeat', kind, n, c))
+                for j in range(out.shape[1]):
+                    key = out[:, j].tobytes()
+                    if key in seen and bad is None:
+                        bad = {'check': 'independent-calls', 'kind': kind, 'number_samples': n, 'call': c, 'earlier_call': seen[key],
+                               'sample': out[:, j].tolist(),
+                               'note': 'two different calls returned a bit-identical sample (probability zero for independent draws)'}
+                    seen[key] = c
+    return bad
+
+
 def run(R):
     base = _impl()
     proved = R.prove(extra_targets=['Model/Sampling.v'])
@@ -203,7 +225,8 @@ def run(R):
     cfail, cbad = correspondence(R, base, R.n(120, 2000))
     pbad = pattern_oracle(R, base, R.n(2000, 100000))
     sbad = statistics_oracle(R, base, R.n(20000, 200000))
-    bad = cbad or pbad or sbad
+    rbad = repeated_calls_oracle(R, base, R.n(300, 3000))
+    bad = cbad or pbad or sbad or rbad
     if bad:
         R.violation('random source generator: %s' % bad['check'], bad)
     elif not R.signals:
@@ -213,7 +236,7 @@ def run(R):
                         dict(rec, check='sample-vs-own-draws'))
     R.cov['rule'] = ('recorded draws: 1-20 samples per call for random_mt / random_dc / random_clvd / random_sample, every column compared bit '
                      'for bit with the model on its own draws; pattern: unit norm and eigenvalues of every sample; statistics: first and second '
-                     'moments of the six-vector components, lag-one independence, second moments of the T, N and P axes within one call')
+                     'moments of the six-vector components, lag-one independence, second moments of the T, N and P axes within one call; 300 consecutive small calls per generator must not repeat a sample')
     return proved
 
 
